@@ -15,7 +15,7 @@ framing (`crates/cascette-protocol/src/{client/ribbit,client/tact,mime_parser}.r
                  without a reply);
 * `extractChecksum`, `clientV1`, `clientV2`, `isV1Mime` = the client's reading path; the MIME
                  body extraction done by the `mail_parser` crate is the function `mimeBody`
-                 (cut at the fixed prelude the server writes and at the first boundary line) and
+                 (cut at the fixed prelude the server writes and at the first boundary marker) and
                  is compared with the crate by the run only.
 -/
 import Cascette.Model.Bpsv
@@ -320,16 +320,24 @@ def dropPrefix : Str → Str → Option Str
   | _ :: _, [] => none
   | p :: ps, c :: cs => if p = c then dropPrefix ps cs else none
 
-def boundaryLine : Str := "\n--RibbitBoundary".toList
+def boundaryMark : Str := "--RibbitBoundary".toList
 
-/-- text up to the first boundary line. -/
+/-- text up to the first occurrence of the boundary marker — `mail_parser` 0.11 looks for
+`--boundary` anywhere in the part, not only at a line start (observed; see finding
+`dirty-boundary`). -/
 def untilBoundary : Str → Str
   | [] => []
-  | c :: cs => if startsWith boundaryLine (c :: cs) then [] else c :: untilBoundary cs
+  | c :: cs => if startsWith boundaryMark (c :: cs) then [] else c :: untilBoundary cs
 
-/-- stand-in for `mail_parser`: the single text part the server writes. -/
+def stripLf (s : Str) : Str :=
+  match s.reverse with
+  | '\n' :: r => r.reverse
+  | _ => s
+
+/-- stand-in for `mail_parser`: the single text part the server writes (fixed prelude, cut at the
+boundary marker, one line end before the marker removed). -/
 def mimeBody (msg : Str) : Option Str :=
-  (dropPrefix mimePrelude msg).map fun rest => stripCr (untilBoundary rest)
+  (dropPrefix mimePrelude msg).map fun rest => stripCr (stripLf (untilBoundary rest))
 
 inductive ClientErr
   | bpsv (e : Bpsv.Err) | checksum | mime | http404
